@@ -15,8 +15,13 @@ for d in sorted(glob.glob(os.path.join(root, "seeded", "*-?"))):
         if v["rc"] == 1 and not first:
             first = v["detail"].strip()[:110].replace("|", "\\|")
     note = strengthened.get(sid, "")
-    rows.append("| %s | %s | %s | %s%s |" % (sid, m["needs_to_manifest"].replace("|", "\\|").replace("\n", " "), ", ".join(caught) or "MISSED",
-                                            ("**missed at first** - " + note) if note else "caught as built", ""))
+    if m.get("retired"):
+        hist, verdict = "**retired** - " + m["retired"], "-"
+    elif note.startswith("NOT COUNTED"):
+        hist, verdict = "**judged not to break the statement** - " + note[len("NOT COUNTED: "):], ", ".join(caught) or "not flagged (by design)"
+    else:
+        hist, verdict = (("**missed at first** - " + note) if note else "caught as built"), ", ".join(caught) or "MISSED"
+    rows.append("| %s | %s | %s | %s%s |" % (sid, m["needs_to_manifest"].replace("|", "\\|").replace("\n", " "), verdict, hist, ""))
 seed_table = "| seed | what it needs in order to manifest | caught by (quick tier) | history |\n|---|---|---|---|\n" + "\n".join(rows)
 mut = []
 for l in open(os.path.join(root, "out", "mutants-all.log")):
